@@ -5,8 +5,12 @@ from kv import Case, xn, xl, xlist, xbool
 
 ID = "C12"
 MODULE = "C12"
-IMPORTS = "Bytes RustInt Limiter LimiterProofs"
+IMPORTS = "Bytes RustInt Limiter LimiterProofs LimiterConc LimiterConcProofs LimiterHosts LimiterHostsProofs"
 PROFILES = ("dev", "nochk")
+FEATURES = ("hooks",)       # the accept loop's hook points: accept errors are provoked and counted on the real listener
+# cases whose real-time schedule could not be kept (or whose server could not be started) after 3 attempts in the
+# harness and 3 runs of the harness are not executed; more than this many fail the run as a harness error
+MAX_NOT_EXECUTED = 6
 USIZE_MAX = 2**64 - 1
 HOUR = 3600 * 1000          # ms
 R_SHORT = 600               # ms: the only reset time that a run actually crosses
@@ -131,6 +135,62 @@ THEOREMS = [
     ("server_refines_reference",
      "forall (checked : bool) (sc : sconfig) (t0 : N) (cs : list connection), "
      "fits (calls_bound cs) -> accept_loop checked sc t0 (map conn_of cs) = (spec_server sc t0 cs, Running)"),
+    ("server_events_refine_reference",
+     "forall (checked : bool) (sc : sconfig) (t0 : N) (evs : list conn_event), "
+     "fits (ev_calls_bound evs) -> accept_loop checked sc t0 evs = spec_server_events sc t0 evs"),
+    ("reference_server_events_meaning",
+     "forall (sc : sconfig) (t0 : N), (forall evs, snd (spec_server_events sc t0 evs) = loop_spec 0 evs) /\\ "
+     "(forall cs, spec_server_events sc t0 (map conn_of cs) = (spec_server sc t0 cs, Running))"),
+    ("server_bystander_always_served",
+     "forall (checked : bool) (sc : sconfig) (t0 : N) (evs1 : list conn_event) (b t : N) (reqs : list N) (evs2 : list conn_event), "
+     "fits (ev_calls_bound (evs1 ++ Conn b t reqs :: evs2)) -> loop_spec 0 evs1 = Running -> "
+     "ev_calls_of b evs1 + 1 + N.of_nat (length reqs) <= min_max sc -> "
+     "nth_error (fst (accept_loop checked sc t0 (evs1 ++ Conn b t reqs :: evs2))) (length (filter is_conn evs1)) "
+     "= Some (Served (repeat Normal (length reqs)) false)"),
+    ("concurrent_others_never_hurt",
+     "forall (checked : bool) (cfg : config) (nsh : nat) (shard : N -> nat) (t0 : N) (progs : list (list N)) "
+     "(sch : list (nat * N)) (l2 : list ret_entry) (i : nat) (b : N) (d : outcome action) (l1 : list ret_entry), "
+     "fits (length sch) -> conc_log checked cfg nsh shard t0 progs sch = l2 ++ (i, b, d) :: l1 -> "
+     "exists act, d = Ok act /\\ action_code act <= action_code (ladder (max_requests cfg) (rets b ((i, b, d) :: l1)))"),
+    ("concurrent_own_traffic_never_limited",
+     "forall (checked : bool) (cfg : config) (nsh : nat) (shard : N -> nat) (t0 : N) (progs : list (list N)) "
+     "(sch : list (nat * N)) (i : nat) (b : N) (d : outcome action), "
+     "fits (length sch) -> count b (all_calls progs) <= max_requests cfg -> "
+     "In (i, b, d) (conc_log checked cfg nsh shard t0 progs sch) -> d = Ok Passed"),
+    ("concurrent_exact_ladder",
+     "forall (checked : bool) (cfg : config) (nsh : nat) (shard : N -> nat) (t0 : N) (progs : list (list N)) "
+     "(sch : list (nat * N)) (b : N), fits (length sch) -> check_every cfg <= 1 -> reset_after cfg = None -> "
+     "verdicts_of b (conc_log checked cfg nsh shard t0 progs sch) "
+     "= map (@Ok action) (ladder_down (max_requests cfg) (N.to_nat (rets b (conc_log checked cfg nsh shard t0 progs sch)))) /\\ "
+     "(all_done (wrun checked cfg nsh shard (wstart t0 progs) sch) = true -> "
+     "verdicts_of b (conc_log checked cfg nsh shard t0 progs sch) "
+     "= map (@Ok action) (ladder_down (max_requests cfg) (N.to_nat (count b (all_calls progs)))))"),
+    ("concurrent_linearizable",
+     "forall (checked : bool) (cfg : config) (nsh : nat) (shard : N -> nat) (t0 : N) (progs : list (list N)) "
+     "(sch : list (nat * N)) (tm : ret_entry -> N), fits (length sch) -> check_every cfg <= 1 -> reset_after cfg = None -> "
+     "map snd (rev (conc_log checked cfg nsh shard t0 progs sch)) "
+     "= map (@Ok action) (reference cfg t0 (map (ev_of tm) (rev (conc_log checked cfg nsh shard t0 progs sch))))"),
+    ("concurrent_disabled_never_limits",
+     "forall (checked : bool) (cfg : config) (nsh : nat) (shard : N -> nat) (t0 : N) (progs : list (list N)) (sch : list (nat * N)), "
+     "Forall (fun en => snd en = Ok Passed) (conc_log checked (disable cfg) nsh shard t0 progs sch) /\\ "
+     "conc_shared checked (disable cfg) nsh shard t0 progs sch = cinit t0"),
+    ("concurrent_model_is_sequential_on_one_thread",
+     "forall (checked : bool) (cfg : config) (nsh : nat) (shard : N -> nat) (t0 : N) (h : list event), "
+     "check_every cfg <= usize_max -> (forall k, (shard k < nsh)%nat) -> "
+     "concseq_decisions checked cfg nsh shard t0 h = decisions checked cfg t0 h"),
+    ("hosts_server_refines_reference",
+     "forall (checked : bool) (mc : mconfig) (t0 : N) (evs : list mevent), "
+     "fits (mcalls_bound evs) -> maccept_loop checked mc t0 evs = spec_mserver mc t0 evs"),
+    ("hosts_have_their_own_counters",
+     "forall (checked : bool) (mc : mconfig) (p : mlims) (a t : N), ask checked mc p a t TUnknown = None /\\ "
+     "(forall k, (length (m_extra mc) <= k)%nat -> ask checked mc p a t (THost (S k)) = None) /\\ "
+     "(forall k p1 d, ask checked mc p a t (THost (S k)) = Some (p1, d) -> "
+     "fst p1 = fst p /\\ (forall j, j <> k -> nth_error (snd p1) j = nth_error (snd p) j)) /\\ "
+     "(forall p1 d, ask checked mc p a t (THost O) = Some (p1, d) -> snd p1 = snd p)"),
+    ("hosts_embedding",
+     "forall (checked : bool) (sc : sconfig) (t0 : N) (cs : list connection), "
+     "maccept_loop checked {| m_base := sc; m_extra := [] |} t0 (map m_of cs) "
+     "= (map up (fst (accept_loop checked sc t0 (map conn_of cs))), snd (accept_loop checked sc t0 (map conn_of cs)))"),
     ("listener_dies_063_refuted",
      "let sc := same_limiter {| max_requests := 0; check_every := 1; reset_after := Some 10000 |} in "
      "accept_loop_063 true sc 0 [Conn 1 0 []; Conn 2 1 [1]] = ([Served [] true; Refused], ReturnedOk) /\\ "
@@ -161,28 +221,65 @@ RULE = ("(1) direct calls LimitManager::new(max, check_every, reset_seconds) + r
         "port still accepts at the end are compared with the model of the accept loop, with the reference server that never stops accepting "
         "(Coq) and with the Python reference. Floods: an address at the drop level makes 1, 3*max+2, 99, 100, 101, 150, 300, 700 (thorough: also "
         "102, 200, 201, 202, 400, 1000, 2500) connections in a row (all dropped at accept), then 127.0.0.2 must be accepted and answered 200, and after "
-        "the reset interval (3 s, real time) the flooder itself is served again. distinct_nontrivial counts "
-        "inputs whose outcome contains at least one Send/Drop decision or one 429/cut/refused connection")
+        "the reset interval (3 s, real time) the flooder itself is served again. A connection on which the server neither answers nor "
+        "closes (seen three times in a row, waiting 8, 12 and 20 s), or a final probe connection that gets no reaction, is an outcome "
+        "(marker 4) that no model or specification produces: a VIOLATION with the history as replay; what the harness itself could not do "
+        "(no port, server never up, schedule missed) is reported as harness trouble, retried by the runner and counted as not executed "
+        "(more than MAX_NOT_EXECUTED fail the run). Ports are reserved in the ephemeral range by a bound SO_REUSEPORT socket held for the "
+        "life of the server. "
+        "(2a) the same histories (floods of 3*max+2 and 101, drop-then-others, random, accept errors, shutdown) against a TLS listener with every "
+        "client connection being one HTTP/2 connection (self-signed certificate, ALPN h2; a connection dropped at accept shows as a failed "
+        "TLS handshake, a dropped request as a reset of the connection). "
+        "(2b) events (limiter.server_ev): between the connections accept() is made to fail n times on the real listener (RLIMIT_NOFILE is "
+        "lowered to 0 after the client socket exists; the hook points al.top / al.got of the accept loop count the failed iterations and "
+        "give the descriptors back at the n-th) for n = 1, 2, 50, 99, 100 (served), 100+100+100 separated by accepted connections — also "
+        "by connections the limiter drops —, 101, 102, 150 (the listener ends, everybody after is refused), and shutdown() is called in "
+        "the middle (refused afterwards); random mixes. "
+        "(2c) hosts (limiter.hosts): collections of 1-4 hosts, each with its own LimitManager, requests naming any of them or a name no "
+        "host has (409 and close), with accept errors and shutdown. "
+        "(2d) concurrent clients (limiter.server_par): 127.0.0.1 floods over 2-16 connections at a time while 1-5 bystanders whose calls "
+        "all stay within every maximum connect at the same moment: each must be answered 200 every time. "
+        "(3) concurrent register: 2-8 OS threads call register on one manager (limiter.conc: check_every 0/1 or disabled, no reset in "
+        "the run: the per-address histogram of verdicts must be the ladder on the number of calls under every interleaving, compared "
+        "with the small-step model run under a generated schedule and with its specification; limiter.concbound: any check_every and "
+        "reset time incl. 1 ms: no panic, no verdict above the ladder on the calls of the address begun so far); limiter.concseq: the "
+        "small-step model on one thread against the real register call by call. Addresses include IPv6 neighbours (same /64, /56, /48), "
+        "::ffff:127.0.0.1 next to 127.0.0.1 and ::1. distinct_nontrivial counts "
+        "inputs whose outcome contains at least one Send/Drop decision or one 429/409/cut/refused connection, and every concurrent case")
 ASSUMPTIONS = [
-    "sequential histories: the calls to register (and to the &mut self setters) are totally ordered (the code uses Relaxed/Release atomics "
-    "and a concurrent map; concurrent interleavings of register are outside the model, as the property's last sentence says)",
-    "one clock reading per call: register reads SystemTime::now() for the comparison and once more in update_time; the model uses the "
-    "same reading for both. reset_seconds is compared in f64 seconds by the code and in integer clock units by the model (rounding of "
-    "as_secs_f64 is not modelled; the correspondence keeps 0.3 s margins, 1.4 s on the real server)",
-    "usize is 64 bit. The theorems about decisions assume histories of at most (2^64-1)/3 calls (hypothesis `fits`): below that bound "
-    "neither `*count += 1` nor `max_requests * 3` can overflow whatever the configuration (proved, register_never_panics); beyond it "
-    "`max_requests * 3` wraps (release) or panics (debug) when max_requests > usize::MAX/3 and a count exceeds it",
-    "availability: one host per collection (the host limiter consulted per request is that host's); the hosts of a built collection are "
-    "immutable, so the server's two configurations are fixed while it runs (configuration changes in the middle of a history are exercised "
-    "on the manager directly). Every listener (IPv4/IPv6, TCP/QUIC) runs its own instance of the modelled loop with its own failure "
-    "counter; calls of the other instances on the shared limiters are events (`Other`) of the model. Accept errors, QUIC time-outs and "
-    "shutdown requests are events of the model and of the theorems but cannot be provoked on a loopback socket and are not part of the "
-    "differential run",
+    "sequential theorems: the calls to register (and to the &mut self setters) are totally ordered. Concurrent calls are covered by the "
+    "small-step model (Model/LimiterConc.v): one transition per access to shared memory (fetch_add / store on `iteration`, the two "
+    "halves of the window start, DashMap::clear shard by shard, the entry update atomic per key), sequentially consistent — the code "
+    "uses Relaxed/Release atomics on independent cells whose values only steer sampling and window resets, and a lock per shard; "
+    "weak-memory reorderings between those cells are not modelled - but the conclusions of the concurrent theorems do not depend on the "
+    "values read from them: the per-address upper bound holds along every control path, and with check_every <= 1 and no finite reset "
+    "time the path is fixed by the configuration alone",
+    "one clock reading per call in the sequential model: register reads SystemTime::now() for the comparison and once more in update_time; "
+    "the model uses the same reading for both (the small-step model gives every access its own reading, any value, so a clock that steps "
+    "back is covered there and by the truncated subtraction of the sequential model; it cannot be provoked on the real code without "
+    "setting the system clock). reset_seconds is compared in f64 seconds by the code and in integer clock units by the model (rounding "
+    "of as_secs_f64 is not modelled; the correspondence keeps 0.3 s margins, 1.4 s on the real server)",
+    "usize is 64 bit. The theorems about decisions assume histories of at most (2^64-1)/3 calls (hypothesis `fits`; for the concurrent "
+    "model: accesses): below that bound neither `*count += 1`, `fetch_add(1) + 1` nor `max_requests * 3` can overflow whatever the "
+    "configuration (proved); beyond it `max_requests * 3` wraps (release) or panics (debug) when max_requests > usize::MAX/3",
+    "availability: the hosts of a built collection are immutable, so the server's configurations are fixed while it runs (configuration "
+    "changes in the middle of a history are exercised on the manager directly). Every listener (IPv4/IPv6, TCP/QUIC) runs its own "
+    "instance of the modelled loop with its own failure counter; calls of the other instances on the shared limiters are events "
+    "(`Other`) of the model. The server theorems serialise the accept loop and its connection tasks (sequential clients); concurrent "
+    "clients are run against the consequence of the concurrent theorems only (bystanders within every maximum are always served). "
+    "QUIC time-outs and `Other` events are events of the model and of the theorems but not of the differential run; HTTP/3 is not run "
+    "(the limiter branch of handle_connection is the same code for every protocol); over TLS the host is chosen by the SNI name of the "
+    "connection, so several hosts are only run over HTTP/1 without TLS",
+    "accept errors are provoked as EMFILE; the loop treats every io::Error of accept() alike (no inspection of the kind for TCP)",
 ]
-TRUSTED = ["modelled: src/limiting.rs LimitManager::{new, default, set_max_requests, set_check_every, set_reset_seconds, disable, register}; "
+TRUSTED = ["modelled: src/limiting.rs LimitManager::{new, default, set_max_requests, set_check_every, set_reset_seconds, disable, register} "
+           "(register also access by access for concurrent callers); "
            "src/lib.rs accept (every arm of the loop: shutdown, TCP/QUIC accept errors with fails_without_accepting and its threshold, QUIC "
-           "time-out, reset of the counter, pre-host limiter, continue/return) and handle_connection (limiter branch of the request loop); "
-           "src/host.rs Host::limiter (Default), CollectionBuilder::{insert, set_pre_host_limiter} (shared / separate pre-host limiter)"]
+           "time-out, reset of the counter, pre-host limiter, continue/return) and handle_connection (host lookup with the 409 arm, limiter "
+           "branch of the request loop); src/host.rs Host::limiter (Default), CollectionBuilder::{insert, set_pre_host_limiter} (shared / "
+           "separate pre-host limiter, one manager per host)",
+           "the hook points al.top / al.got of the accept loop (cargo feature verif-hooks, add-only) are used to count failed iterations; "
+           "RLIMIT_NOFILE of the harness process is lowered and restored around them"]
 EXHAUSTIVE = False
 R_SRV = 3000                # ms: reset time crossed by real-server runs
 SRV_WAIT = R_SRV + 1500     # nominal wait that crosses it (the harness is never early and at most 1.4 s late)
@@ -241,16 +338,27 @@ def opcase(ctor, ops, kind, profiles=PROFILES):
 
 
 # ---- server ---------------------------------------------------------------------------------
-# pre: None | ("own", mx, ce, reset) | ("clone", mx, ce, reset);  bind: 0 IPv4 only, 1 dual stack
+# pre: None | ("own", mx, ce, reset) | ("clone", mx, ce, reset);  bind: 0 IPv4 only, 1 dual stack, 2 IPv6 only, 3 TLS + HTTP/2 (IPv4)
 def srv(mx, ce, reset, conns, kind, profile="dev", path=0, pre=None, bind=0):
     if pre is None:
         xp = xl()
     else:
         xp = xl(xn(0 if pre[0] == "own" else 1), cfg(pre[1], pre[2], pre[3]))
     sconf = xl(xn(path), cfg(mx, ce, reset), xp, xn(bind))
-    xc = [xl(xn(c[0]), xn(c[1]), xn(c[2])) if len(c) == 3 else xl(xn(c[0]), xn(c[1]), xn(c[2]), xn(c[3])) for c in conns]
+    xc = [xev(c) for c in conns]
     meta = {"kind": kind, "host": (mx, ce, reset), "pre": pre, "conns": conns}
+    if any(isinstance(c[0], str) for c in conns):
+        return [Case("limiter.server_ev", xl(xbool(profile == "dev"), sconf, xlist(xc)), "limiter.server_ev_spec", meta, profile)]
     return [Case("limiter.server", xl(xbool(profile == "dev"), sconf, xlist(xc)), "limiter.server_spec", meta, profile)]
+
+
+def xev(c):
+    """(addr, wait_ms, nreq[, times]) a connection | ("errs", n) the next n calls of accept() fail | ("shutdown",)"""
+    if c[0] == "errs":
+        return xl(xn(200), xn(c[1]))
+    if c[0] == "shutdown":
+        return xl(xn(201))
+    return xl(xn(c[0]), xn(c[1]), xn(c[2])) if len(c) == 3 else xl(xn(c[0]), xn(c[1]), xn(c[2]), xn(c[3]))
 
 
 ADDRS = [0x7F000001, 0x7F000002, 0x0A000001, 2**127 + 5, 0, 2**32 - 1, 2**32, 2**128 - 1]
@@ -379,6 +487,11 @@ def gen_ops(rng, quick):
             else:
                 ops.append(("disable",))
         cases += opcase(ctor, ops, "ops-random", (rng.choice(PROFILES),))
+    # ---- the 10 s of Default / Host::limiter in real time (thorough only: 10.6 s) ------------------------------------------
+    if not quick:
+        for ctor in (("default",), ("host",)):
+            cases += opcase(ctor, [("every", 1), ("max", 0), ("reg", 1, 0), ("reg", 1, 9000), ("reg", 2, 0), ("reg", 1, 1600), ("reg", 1, 0),
+                                   ("reg", 2, 0)], "ops-default-reset", ("dev",))
     # ---- reset time changed, in real time ---------------------------------------------------------------
     for i in range(6 if quick else 40):
         mx = rng.choice([0, 1, 2])
@@ -398,9 +511,11 @@ def gen_server(rng, quick):
     k = 0
     # ---- floods around every constant of the accept loop; IPv4-only, both listeners, IPv6-only (v4-mapped peers) ----
     lengths = [1, 8, 99, 100, 101, 150, 300, 700] + ([] if quick else [102, 200, 201, 202, 400, 1000, 2500])
-    for bind in (0, 1, 2):
+    for bind in (0, 1, 2, 3):       # 3: TLS, every client connection is one HTTP/2 connection
         for n in lengths:
             if bind == 2 and quick and n not in (8, 101, 300):
+                continue
+            if bind == 3 and (n not in (8, 101) if quick else n > 300):
                 continue
             mx = 2
             n = 3 * mx + 2 if n == 8 else n
@@ -423,6 +538,11 @@ def gen_server(rng, quick):
     for mx in ((1, 2) if quick else (0, 1, 2, 5)):
         cases += srv(mx, 1, HOUR, drop_then_other(mx), "server-drop-then-others")
         cases += srv(mx, 1, HOUR, drop_then_other(mx), "server-drop-then-others", "nochk", path=1, bind=1)
+    for mx in ((2,) if quick else (0, 1, 2, 5)):
+        cases += srv(mx, 1, HOUR, drop_then_other(mx), "server-h2", PROFILES[mx % 2], path=mx % 2, bind=3)
+    cases += srv(3, 2, HOUR, [(0, 0, 30), (1, 0, 3), (0, 0, 2), (0, 0, 1, 4), (1, 0, 1)], "server-h2", bind=3)
+    cases += srv(2, 1, HOUR, [(0, 0, 1), ("errs", 100), (1, 0, 2), ("errs", 101), (1, 0, 1), (0, 0, 1)], "server-h2", "nochk", bind=3)
+    cases += srv(2, 1, HOUR, [(0, 0, 9), (0, 0, 1), (1, 0, 2), ("shutdown",), (1, 0, 1)], "server-h2", bind=3)
     # the missed class on a Host: Default (10, 10, 10 s) tuned with the setters, driven past both rungs
     cases += srv(2, 1, HOUR, [(0, 0, 40), (0, 0, 1), (1, 0, 1)], "server-setters", "dev", path=1)
     cases += srv(20, 1, HOUR, [(0, 0, 70), (0, 0, 1), (1, 0, 1)], "server-setters", "nochk", path=1)
@@ -446,7 +566,257 @@ def gen_server(rng, quick):
             conns.append(c + (rng.randrange(2, 12),) if rng.random() < 0.15 else c)
         pre = rng.choice([None, None, None, ("own", rng.randrange(0, 4), rng.choice([1, 2]), HOUR),
                           ("clone", rng.randrange(0, 4), rng.choice([1, 2]), rng.choice([HOUR, "inf"]))])
-        cases += srv(mx, ce, reset, conns, "server-random", PROFILES[i % 2], path=rng.randrange(2), pre=pre, bind=rng.randrange(3))
+        cases += srv(mx, ce, reset, conns, "server-random", PROFILES[i % 2], path=rng.randrange(2), pre=pre, bind=rng.randrange(4))
+    return cases
+
+
+def hsrv(mx, ce, reset, extra, evs, kind, profile="dev", path=0, pre=None, bind=0):
+    """A collection of 1 + len(extra) hosts; evs: (addr, wait_ms, [target, ...]) | ("errs", n) | ("shutdown",); target i = the i-th
+    host, 99 = a name that no host has."""
+    if pre is None:
+        xp = xl()
+    else:
+        xp = xl(xn(0 if pre[0] == "own" else 1), cfg(pre[1], pre[2], pre[3]))
+    sconf = xl(xn(path), cfg(mx, ce, reset), xp, xn(bind), xlist([cfg(*e) for e in extra]))
+    xe = []
+    for e in evs:
+        if e[0] == "errs":
+            xe.append(xl(xn(200), xn(e[1])))
+        elif e[0] == "shutdown":
+            xe.append(xl(xn(201)))
+        else:
+            xe.append(xl(xn(e[0]), xn(e[1]), xlist([xn(t) for t in e[2]])))
+    meta = {"kind": kind, "host": (mx, ce, reset), "extra": extra, "pre": pre, "hevs": evs}
+    return [Case("limiter.hosts", xl(xbool(profile == "dev"), sconf, xlist(xe)), "limiter.hosts_spec", meta, profile)]
+
+
+def gen_hosts(rng, quick):
+    """Several hosts in one collection (each with its own manager; the pre-host limiter shares the first one's counters) and
+    requests that name no host (409, connection closed, no host limiter asked)."""
+    cases = []
+    # one address uses up host 1 while host 0 and host 2 still answer it; the other address is untouched
+    cases += hsrv(2, 1, HOUR, [(1, 1, HOUR), (3, 1, HOUR)], [(0, 0, [1] * 6 + [0, 2, 2]), (1, 0, [1, 0, 2]), (0, 0, [1]), (0, 0, [2, 0])], "hosts")
+    # the routed host's limiter is the one that is asked, not the first / default host's (max 0 there)
+    cases += hsrv(0, 1, HOUR, [(5, 1, HOUR)], [(0, 0, [1] * 3)], "hosts", pre=("own", 50, 1, HOUR))
+    cases += hsrv(5, 1, HOUR, [(0, 1, HOUR)], [(0, 0, [0, 0, 1, 0])], "hosts", "nochk", path=1)
+    # unknown hosts: 409 and closed, never counted by a host limiter — only at accept
+    cases += hsrv(1, 1, HOUR, [], [(0, 0, [99])] * 6 + [(1, 0, [99, 0]), (1, 0, [0])], "hosts-unknown")
+    cases += hsrv(2, 1, HOUR, [(1, 1, HOUR)], [(0, 0, [0, 99, 0]), (0, 0, [7]), (0, 0, [1, 1, 99]), (0, 0, [1]), (1, 0, [1, 0])], "hosts-unknown", "nochk")
+    cases += hsrv(5, 1, HOUR, [(1, 1, HOUR)], [(0, 0, [99])] * 3 + [(0, 0, [0] * 20), (0, 0, [99]), (1, 0, [99])], "hosts-unknown", pre=("own", 1, 1, HOUR))
+    cases += hsrv(2, 1, HOUR, [(1, 1, HOUR)], [(0, 0, [1, 0]), ("errs", 100), (0, 0, [99]), ("errs", 101), (1, 0, [1]), (0, 0, [0])], "hosts-events")
+    cases += hsrv(2, 1, HOUR, [(1, 1, HOUR)], [(0, 0, [1, 0]), ("shutdown",), (0, 0, [1])], "hosts-events", "nochk")
+    for i in range(10 if quick else 150):
+        mx = rng.choice([0, 1, 2, 5])
+        ce = rng.choice([1, 1, 2])
+        extra = [(rng.choice([0, 1, 2, 3]), rng.choice([1, 1, 2]), rng.choice([HOUR, "inf"])) for _ in range(rng.randrange(0, 4))]
+        evs = []
+        for _ in range(rng.randrange(3, 9)):
+            tg = [rng.choice(list(range(len(extra) + 1)) * 3 + [99, len(extra) + 1]) for _ in range(rng.choice([1, 2, 3, 8]))]
+            evs.append((rng.randrange(0, 3), 0, tg))
+        cases += hsrv(mx, ce, rng.choice([HOUR, "inf", 0]), extra, evs, "hosts-random", PROFILES[i % 2], path=i % 2,
+                      pre=rng.choice([None, None, ("own", rng.randrange(0, 4), 1, HOUR), ("clone", rng.randrange(0, 4), 1, HOUR)]))
+    return cases
+
+
+def py_hosts(host, extra, pre, evs):
+    managers = [PyLimiter(*host)] + [PyLimiter(*e) for e in extra]
+    cfgs = [_Cfg(*host)] + [_Cfg(*e) for e in extra]
+    if pre is None:
+        pl, pc = managers[0], cfgs[0]
+    elif pre[0] == "clone":
+        pl, pc = managers[0], _Cfg(*pre[1:])
+    else:
+        pl, pc = PyLimiter(*pre[1:]), _Cfg(*pre[1:])
+    now, out, fails, ended = 0, [], 0, False
+    for e in evs:
+        if e[0] == "errs":
+            fails += e[1]
+            ended = ended or fails > 100
+            continue
+        if e[0] == "shutdown":
+            ended = True
+            continue
+        a, dt, tgs = e
+        now += dt
+        if ended:
+            out.append("refused")
+            continue
+        fails = 0
+        if pl.register(a, now, pc) == 2:
+            out.append(([], 1))
+            continue
+        st, cut = [], 0
+        for n, t in enumerate(tgs):
+            if t == 99 or t > len(extra):
+                st.append(409)
+                cut = 1 if n + 1 < len(tgs) else 0
+                break
+            d = managers[t].register(a, now, cfgs[t])
+            if d == 2:
+                cut = 1
+                break
+            st.append(200 if d == 0 else 429)
+        out.append((st, cut))
+    return out
+
+
+def gen_par(rng, quick):
+    """Concurrent clients on a real server: a flood over several connections at a time from 127.0.0.1 while bystanders whose
+    calls (accept + requests) all stay within every maximum connect at the same moment: each must get 200 every time."""
+    cases = []
+    for i in range(8 if quick else 60):
+        mx = rng.choice([2, 4, 6, 12, 30])
+        ce = rng.choice([1, 1, 2, 3])
+        reset = rng.choice([HOUR, "inf", 0, HOUR])
+        pre = rng.choice([None, None, ("own", rng.choice([2, 3, 8]), 1, HOUR), ("clone", rng.choice([2, 5]), rng.choice([1, 2]), HOUR)])
+        limit = min([mx] + ([pre[1]] if pre else []))
+        by = []
+        for _ in range(rng.randrange(1, 6)):
+            nreq = rng.randrange(1, max(2, limit))
+            nconn = max(1, limit // (1 + nreq)) if (1 + nreq) <= limit else 0
+            if nconn:
+                by.append((rng.randrange(1, nconn + 1), nreq))
+        if not by:
+            by = [(1, 1)]
+        # (every answered request costs the client ~40 ms of delayed ACK: the flood of one task stays below ~60 answers in quick)
+        flood = (rng.choice([10, 20, 30] if quick else [30, 100, 300]), rng.choice([1, 1, 2]), rng.choice([2, 4, 8, 16]))
+        prof = PROFILES[i % 2]
+        xp = xl() if pre is None else xl(xn(0 if pre[0] == "own" else 1), cfg(pre[1], pre[2], pre[3]))
+        sconf = xl(xn(i % 2), cfg(mx, ce, reset), xp, xn(rng.randrange(3)))
+        x = xl(xbool(prof == "dev"), sconf, xl(xn(flood[0]), xn(flood[1]), xn(flood[2])), xlist([xl(xn(c), xn(r)) for c, r in by]))
+        cases.append(Case("limiter.server_par", x, "limiter.server_par", {"kind": "server-concurrent", "by": by}, prof))
+    return cases
+
+
+def gen_events(rng, quick):
+    """Accept errors (EMFILE on the real listener, counted by the hook points of the accept loop) and shutdown requests
+    between the connections: every constant of the error arm (threshold 100, reset of the failure counter by an accepted
+    connection BEFORE the limiter is asked, `>` not `>=`) and the two ways in which the loop may end."""
+    cases = []
+    k = 0
+    mx = 2
+    to_drop = [(0, 0, 3 * mx + 4)]          # 127.0.0.1 reaches the drop level
+    for n in (1, 2, 50, 99, 100):
+        k += 1
+        cases += srv(mx, 1, HOUR, [(0, 0, 1), ("errs", n), (1, 0, 2), (0, 0, 1)], "server-accept-errors", PROFILES[k % 2], path=k % 2)
+    # the failure counter starts again with every accepted connection: 100 + 100 + 100 never end the loop
+    cases += srv(mx, 1, HOUR, [(0, 0, 1), ("errs", 100), (1, 0, 1), ("errs", 100), (1, 0, 1), ("errs", 100), (2, 0, 1)], "server-accept-errors")
+    # ... also when that connection is dropped by the limiter (the counter is reset before the limiter is asked)
+    cases += srv(mx, 1, HOUR, to_drop + [("errs", 60), (0, 0, 1), ("errs", 60), (1, 0, 1), ("errs", 100), (0, 0, 1), ("errs", 100), (1, 0, 1)],
+                 "server-accept-errors", "nochk", path=1)
+    # more than the threshold in a row: the loop ends (the only way besides shutdown), everybody is refused afterwards
+    for n in (101, 102, 150) if quick else (101, 102, 150, 200, 1000, 5000):
+        k += 1
+        cases += srv(mx, 1, HOUR, [(0, 0, 1), ("errs", n), (1, 0, 1), (0, 0, 1), (2, 0, 1)], "server-accept-errors-fatal", PROFILES[k % 2], path=k % 2)
+    cases += srv(mx, 1, HOUR, [(0, 0, 1), ("errs", 100), (1, 0, 1), ("errs", 101), (1, 0, 1), (2, 0, 1)], "server-accept-errors-fatal")
+    cases += srv(mx, 1, HOUR, to_drop + [(0, 0, 1, 5), ("errs", 101), (1, 0, 1), (1, 0, 1)], "server-accept-errors-fatal", "nochk")
+    # two batches without a connection between them add up
+    cases += srv(mx, 1, HOUR, [(0, 0, 1), ("errs", 50), ("errs", 50), (1, 0, 1), ("errs", 51), ("errs", 50), (1, 0, 1), (2, 0, 1)], "server-accept-errors-fatal")
+    # shutdown: the other way; before it everybody is served, after it everybody is refused
+    for bind in (0, 1):
+        cases += srv(mx, 1, HOUR, [(0, 0, 2), (1, 0, 1), ("shutdown",), (1, 0, 1), (0, 0, 1)], "server-shutdown", PROFILES[bind], path=bind, bind=bind)
+    cases += srv(mx, 1, HOUR, to_drop + [(0, 0, 1, 3), (1, 0, 1), ("shutdown",), (1, 0, 1)], "server-shutdown")
+    cases += srv(mx, 1, HOUR, [(0, 0, 1), ("errs", 100), (1, 0, 1), ("shutdown",), (1, 0, 1)], "server-shutdown")
+    for i in range(6 if quick else 60):
+        mx = rng.choice([0, 1, 2, 5])
+        ce = rng.choice([1, 1, 2])
+        evs = [(0, 0, 1)]
+        alive = True
+        for _ in range(rng.randrange(3, 9)):
+            r = rng.random()
+            if r < 0.35:
+                evs.append(("errs", rng.choice([1, 3, 10, 50, 99, 100, 100, 101, 120]) if rng.random() < 0.8 else rng.randrange(1, 140)))
+                evs.append((rng.randrange(0, 3), 0, rng.choice([1, 2, 3 * mx + 3])))
+            elif r < 0.42 and alive:
+                evs.append(("shutdown",))
+                alive = False
+            else:
+                c = (rng.randrange(0, 3), 0, rng.choice([1, 1, 2, 3 * mx + 3]))
+                evs.append(c + (rng.randrange(2, 8),) if rng.random() < 0.2 else c)
+        if not alive:       # accept errors cannot be provoked on a closed listener: none after the shutdown request
+            cut = next(n for n, e in enumerate(evs) if e[0] == "shutdown")
+            evs = evs[:cut + 1] + [e for e in evs[cut + 1:] if e[0] != "errs"]
+        cases += srv(mx, ce, HOUR, evs, "server-events-random", PROFILES[i % 2], path=i % 2,
+                     pre=rng.choice([None, None, ("own", rng.randrange(0, 4), 1, HOUR), ("clone", rng.randrange(0, 4), 1, HOUR)]))
+    return cases
+
+
+V6 = 2**127 + 5
+NEIGHBOURS = [V6, V6 + 1, V6 + 2**63, V6 + 2**64, V6 + 2**80, 0xFFFF7F000001, 0x7F000001, 1]
+# the same /64 (and /128 apart), the same /48, the same /56, ::ffff:127.0.0.1 next to 127.0.0.1, ::1
+
+
+def conc_case(comp, spec, mx, ce, reset, progs, sched, kind, prof):
+    xp = xlist([xlist([xl(xn(a), xn(k)) for a, k in p]) for p in progs])
+    x = xl(xbool(prof == "dev"), cfg(mx, ce, reset), xp, xlist([xn(t) for t in sched]))
+    return Case(comp, x, spec, {"kind": kind, "cfg": (mx, ce, reset), "progs": progs}, prof)
+
+
+def gen_conc(rng, quick):
+    """Several OS threads on one manager.  (a) every call counted (check_every 0 / 1) or the limiter disabled, no reset within
+    the run: the per-address histogram of verdicts is the same under every interleaving (theorem concurrent_exact_ladder) and
+    is compared exactly; (b) any configuration: no panic and no answer harsher than the ladder on the address's own calls."""
+    cases = []
+    scale = 1 if quick else 4
+    for i in range(14 if quick else 80):
+        mx = rng.choice([0, 1, 2, 5, 50, 1000, 3000])
+        ce = rng.choice([1, 1, 1, 0, USIZE_MAX])
+        reset = rng.choice(["inf", "nan", HOUR, "inf"])
+        nthreads = rng.randrange(2, 9)
+        addrs = rng.sample(ADDRS + NEIGHBOURS[1:5], rng.randrange(1, 5))
+        progs = []
+        for _ in range(nthreads):
+            prog = [(rng.choice(addrs), rng.choice([1, 7, 100, 500, 1500 * scale])) for _ in range(rng.randrange(1, 5))]
+            progs.append(prog)
+        if i % 3 == 0:
+            # a bystander whose calls — spread over all threads — are exactly max: every one must pass
+            by = 0x0A0000FE
+            left = mx
+            for p in progs:
+                k = min(left, rng.randrange(0, mx + 1)) if p is not progs[-1] else left
+                left -= k
+                p.insert(rng.randrange(len(p) + 1), (by, k))
+        sched = [rng.randrange(nthreads) for _ in range(rng.randrange(0, 40))]
+        cases.append(conc_case("limiter.conc", "limiter.conc_spec", mx, ce, reset, progs, sched, "conc-counted", PROFILES[i % 2]))
+    for i in range(10 if quick else 60):
+        mx = rng.choice([0, 1, 2, 5, 50])
+        ce = rng.choice([2, 2, 3, 10, 1, 7])
+        reset = rng.choice([HOUR, "inf", 0, -1, 1, 5, 1])
+        nthreads = rng.randrange(2, 9)
+        addrs = rng.sample(ADDRS + NEIGHBOURS[1:5], rng.randrange(1, 5))
+        progs = [[(rng.choice(addrs), rng.choice([1, 50, 500, 2000 * scale])) for _ in range(rng.randrange(1, 5))] for _ in range(nthreads)]
+        cases.append(conc_case("limiter.concbound", "limiter.concbound", mx, ce, reset, progs, [], "conc-bound", PROFILES[i % 2]))
+    # the small-step model on one thread against the real register, call by call (and against the reference)
+    for i in range(120 if quick else 1500):
+        mx = rng.choice([0, 1, 2, 5])
+        ce = rng.choice([1, 2, 3, 0, USIZE_MAX, rng.randrange(1, 7)])
+        reset = rng.choice([HOUR, HOUR, 0, "inf", "nan", -1])
+        ev = rand_history(rng, mx, ce, rng.randrange(1, 5))
+        prof = PROFILES[i % 2]
+        x = xl(xbool(prof == "dev"), cfg(mx, ce, reset), xlist([xl(xn(a), xn(dt)) for a, dt in ev]))
+        cases.append(Case("limiter.concseq", x, "limiter.reference", {"kind": "conc-model-sequential"}, prof))
+    return cases
+
+
+def gen_neighbours(rng, quick):
+    """Addresses that any aggregation by prefix (/64, /56, /48, v4-mapped = v4) would merge: one floods, its neighbours stay
+    within their own maximum and must pass every time."""
+    cases = []
+    for mx in (1, 2, 5):
+        for ce in (1, 2):
+            for k in range(1, len(NEIGHBOURS)):
+                flooder, other = NEIGHBOURS[0] if k < 6 else NEIGHBOURS[5], NEIGHBOURS[k]
+                if k == 5:
+                    flooder, other = NEIGHBOURS[6], NEIGHBOURS[5]
+                ev = [(flooder, 0)] * (ce * (3 * mx + 3)) + [(other, 0)] * (ce * mx) + [(flooder, 0)] * ce + [(other, 0)] * ce
+                cases += reg(mx, ce, HOUR, ev, "address-neighbours", (PROFILES[(mx + ce + k) % 2],))
+    for _ in range(40 if quick else 400):
+        mx = rng.choice([0, 1, 2, 5])
+        ce = rng.choice([1, 1, 2, 3])
+        addrs = rng.sample(NEIGHBOURS, rng.randrange(2, 5))
+        n = needed(mx, ce, len(addrs)) + rng.randrange(0, 6)
+        weights = [rng.choice([1, 1, 2, 5]) for _ in addrs]
+        cases += reg(mx, ce, HOUR, [(rng.choices(addrs, weights)[0], 0) for _ in range(n)], "address-neighbours", (rng.choice(PROFILES),))
     return cases
 
 
@@ -455,6 +825,11 @@ def generate(rng, tier):
     cases = []
     # ---- the real-server runs that wait for the reset interval first: they spread over the shards -------
     cases += gen_server(rng, quick)
+    cases += gen_events(rng, quick)
+    cases += gen_par(rng, quick)
+    cases += gen_hosts(rng, quick)
+    cases += gen_conc(rng, quick)
+    cases += gen_neighbours(rng, quick)
     # ---- corpus: the finding of this property ------------------------------------------------------
     cases += srv(2, 1, HOUR, [(0, 0, 8), (0, 0, 1), (1, 0, 1), (1, 0, 1)], "corpus")
     cases += srv(0, 1, HOUR, [(0, 0, 1), (1, 0, 1)], "corpus")
@@ -562,7 +937,8 @@ class _Cfg:
 
 
 def py_server(host, pre, conns):
-    """Expected result per connection: ('served', [statuses], cut).  Nobody is ever refused."""
+    """Expected result per connection: ([statuses], cut) — or "refused" once the listener has been asked to shut down or
+    has seen more than 100 failed calls of accept() in a row with no accepted connection between them."""
     hl = PyLimiter(*host)
     hc = _Cfg(*host)
     if pre is None:
@@ -572,10 +948,22 @@ def py_server(host, pre, conns):
     else:
         pl, pc = PyLimiter(*pre[1:]), _Cfg(*pre[1:])
     now, out = 0, []
+    fails, ended = 0, False
     for c in conns:
+        if c[0] == "errs":
+            fails += c[1]
+            ended = ended or fails > 100
+            continue
+        if c[0] == "shutdown":
+            ended = True
+            continue
         a, dt, nreq = c[0], c[1], c[2]
         now += dt
         for _ in range(c[3] if len(c) > 3 else 1):
+            if ended:
+                out.append("refused")
+                continue
+            fails = 0
             if pl.register(a, now, pc) == 2:
                 out.append(([], 1))
                 continue
@@ -602,6 +990,8 @@ def _parse_server(i):
         f = r[1]
         if num(f[0]) == 3:
             res.append("refused")
+        elif num(f[0]) == 4:
+            res.append(("no reaction", [num(t) for t in f[1][1]]))
         else:
             res.append(([num(t) for t in f[1][1]], num(f[2])))
     return res, num(v[1][1])
@@ -615,25 +1005,84 @@ def extra_oracle(c, i):
             return ("decisions differ from the reference ladder computed from the configuration current at each call: "
                     "expected %s" % want[:400])
         return None
-    if c.comp == "limiter.server" and "conns" in c.meta:
+    if c.comp == "limiter.conc" and "progs" in c.meta:
+        mx, ce, _ = c.meta["cfg"]
+        order, n = [], {}
+        for p in c.meta["progs"]:
+            for a, k in p:
+                if k and a not in order:
+                    order.append(a)
+                n[a] = n.get(a, 0) + k
+        rows = []
+        for a in order:
+            if not n[a]:
+                continue
+            p = n[a] if ce == USIZE_MAX else min(n[a], mx)
+            t = n[a] if ce == USIZE_MAX else min(n[a], 3 * mx)
+            rows.append("(L (N %d) (N %d) (N %d) (N %d) (N 0) (N 0))" % (a, p, t - p, n[a] - t))
+        want = "(L" + "".join(" " + r for r in rows) + ")"
+        if i != want:
+            return ("%d threads on one manager, every call counted: per address (passed, 429, dropped, panicked, harsher than the ladder on "
+                    "its own calls) must be the ladder on its number of calls whatever the interleaving: expected %s" % (len(c.meta["progs"]), want[:600]))
+        return None
+    if c.comp == "limiter.concbound" and "progs" in c.meta:
+        total = sum(k for p in c.meta["progs"] for _, k in p)
+        if i != "(L (N 0) (N 0) (N %d))" % total:
+            return ("concurrent calls: (answers harsher than the ladder on the address's own calls begun so far, panics, calls) must be "
+                    "(0, 0, %d)" % total)
+        return None
+    if c.comp == "limiter.server_par" and "by" in c.meta:
+        want = "(L (L" + "".join(" (L" + (" (L (N 0) (L" + " (N 200)" * r + ") (N 0))") * n + ")" for n, r in c.meta["by"]) + ") (N 1))"
+        if i != want:
+            return ("while 127.0.0.1 floods over parallel connections, every bystander whose calls all stay within every maximum must be "
+                    "served 200 each time and the port must accept at the end; got %s" % i[:600])
+        return None
+    if c.comp == "limiter.hosts" and "hevs" in c.meta:
         try:
             got, alive = _parse_server(i)
         except Exception as e:        # noqa: BLE001
             return "unreadable server outcome: %r" % (e,)
-        want = py_server(c.meta["host"], c.meta["pre"], c.meta["conns"])
-        # (a) availability, stated without any counter: nobody is refused, the port accepts at the end
         for n, g in enumerate(got):
-            if g == "refused":
-                return "connection #%d was refused: the listener stopped accepting" % (n + 1)
-        if alive != 1:
-            return "nobody accepts on the port at the end of the history"
+            if isinstance(g, tuple) and g[0] == "no reaction":
+                return "connection #%d: the server neither answered nor closed the connection; answers before: %r" % (n + 1, g[1])
+        if alive == 4:
+            return "at the end of the history a new connection is neither answered nor closed: the accept loop is blocked"
+        want = py_hosts(c.meta["host"], c.meta["extra"], c.meta["pre"], c.meta["hevs"])
+        if len(got) != len(want) or any(g != w for g, w in zip(got, want)):
+            n = next((n for n, (g, w) in enumerate(zip(got, want)) if g != w), min(len(got), len(want)))
+            return ("connection #%d: got %r; one reference ladder per host (the routed host's own limiter and counters; 409 and close for "
+                    "a name no host has, which no host limiter counts) gives %r" % (n + 1, got[n] if n < len(got) else None,
+                                                                                    want[n] if n < len(want) else None))
+        return None
+    if c.comp in ("limiter.server", "limiter.server_ev") and "conns" in c.meta:
+        try:
+            got, alive = _parse_server(i)
+        except Exception as e:        # noqa: BLE001
+            return "unreadable server outcome: %r" % (e,)
+        conns = c.meta["conns"]
+        want = py_server(c.meta["host"], c.meta["pre"], conns)
+        # (a) availability, stated without any counter.  The server reacts to everybody (an answer or a close) ...
+        for n, g in enumerate(got):
+            if isinstance(g, tuple) and g[0] == "no reaction":
+                return ("connection #%d: the server neither answered nor closed the connection (observed three times, waiting 8, "
+                        "12 and 20 s); answers before: %r" % (n + 1, g[1]))
+        if alive == 4:
+            return "at the end of the history a new connection is neither answered nor closed: the accept loop is blocked"
+        # ... and nobody is refused unless the listener was asked to shut down or accept() failed more than 100 times in a row
+        may_end = any(cc[0] == "shutdown" for cc in conns) or _max_err_run(conns) > 100
+        if not may_end:
+            for n, g in enumerate(got):
+                if g == "refused":
+                    return "connection #%d was refused: the listener stopped accepting" % (n + 1)
+            if alive != 1:
+                return "nobody accepts on the port at the end of the history"
         # (b) the bystander: an address none of whose calls so far exceeds any configured maximum is served 200 every time
-        flat = [(cc[0], cc[2]) for cc in c.meta["conns"] for _ in range(cc[3] if len(cc) > 3 else 1)]
+        flat = [(cc[0], cc[2]) for cc in conns if not isinstance(cc[0], str) for _ in range(cc[3] if len(cc) > 3 else 1)]
         limit = min([c.meta["host"][0]] + ([c.meta["pre"][1]] if c.meta["pre"] else []))
         calls = {}
-        for n, ((a, nreq), g) in enumerate(zip(flat, got)):
+        for n, ((a, nreq), g, w) in enumerate(zip(flat, got, want)):
             calls[a] = calls.get(a, 0) + 1 + nreq
-            if calls[a] <= limit and g != ([200] * nreq, 0):
+            if w != "refused" and calls[a] <= limit and g != ([200] * nreq, 0):
                 return ("bystander not served: connection #%d of 127.0.0.%d (its %d calls so far are within every maximum, %d) got %r"
                         % (n + 1, a + 1, calls[a], limit, g))
         # (c) every answer equals the reference ladder
@@ -641,13 +1090,59 @@ def extra_oracle(c, i):
             n = next((n for n, (g, w) in enumerate(zip(got, want)) if g != w), min(len(got), len(want)))
             return "connection #%d: got %r, the reference ladder of the current configuration gives %r" % (
                 n + 1, got[n] if n < len(got) else None, want[n] if n < len(want) else None)
+        if alive != (0 if want and want[-1] == "refused" or (may_end and _ended(conns)) else 1):
+            return "at the end of the history the port %s" % ("still accepts although the listener was shut down / had failed"
+                                                              if alive == 1 else "no longer accepts")
+    return None
+
+
+def _max_err_run(conns):
+    run = best = 0
+    for c in conns:
+        if c[0] == "errs":
+            run += c[1]
+            best = max(best, run)
+        elif c[0] != "shutdown":
+            run = 0
+    return best
+
+
+def _ended(conns):
+    run = 0
+    for c in conns:
+        if c[0] == "shutdown":
+            return True
+        if c[0] == "errs":
+            run += c[1]
+            if run > 100:
+                return True
+        else:
+            run = 0
+    return False
+
+
+def harness_trouble(cases, impl, model):
+    """A kind of case none of whose members could be executed is no longer tied to the code, however few they are."""
+    import re
+    by_kind = {}
+    for c in cases:
+        i = impl.get(c.id)
+        k = c.meta.get("kind", "-")
+        n, bad, ids = by_kind.get(k, (0, 0, []))
+        trouble = i is None or re.match(r"\(L \(N 93\)|\(L \(N 96\)", i) is not None
+        by_kind[k] = (n + 1, bad + (1 if trouble else 0), ids + ([c.id] if trouble else []))
+    dead = ["%s (%d cases: %s)" % (k, n, ", ".join(ids[:4])) for k, (n, bad, ids) in sorted(by_kind.items()) if n >= 2 and bad == n and k != "malformed"]
+    if dead:
+        return "no case of kind " + "; ".join(dead) + " could be executed"
     return None
 
 
 def signature(c, m):
-    if c.comp in ("limiter.register", "limiter.ops"):
+    if c.comp in ("limiter.conc", "limiter.concbound"):
+        return "concurrent"
+    if c.comp in ("limiter.register", "limiter.ops", "limiter.concseq"):
         return "limited" if ("(N 1)" in m or "(N 2)" in m) and c.meta.get("kind") != "malformed" else None
-    return "limited" if ("(N 429)" in m or "(N 3)" in m or "(N 1))" in m) else None
+    return "limited" if ("(N 429)" in m or "(N 409)" in m or "(N 3)" in m or "(N 1))" in m) else None
 
 
 def directed(rng, mismatches):
@@ -675,14 +1170,28 @@ LEVEL_TEXT = ("Machine-checked Coq theorems over a transcription of LimitManager
               "starts a new window and is not counted; the others are counted per address and answered by the ladder <= max / <= 3*max / "
               "beyond of the current max); setters never touch the counters and every order of them from every constructor gives the limiter "
               "of new(..); an address whose counted requests stay <= the current max always passes whatever others do; a due call after the "
-              "reset time leaves exactly the state of a new limiter; a disabled limiter never limits until re-enabled; the state of the accept "
-              "loop (running / returned / failed) after every event list is a function of the kinds of the accept events alone (shutdown "
-              "request, more than 100 consecutive accept errors) - no address, request count, verdict or configuration occurs in it - so the "
-              "loop is alive after every event list without those, nobody is refused, and it ends in no other way. The model is tied to the "
-              "repository on every run by a differential run of the real LimitManager and of a real server on a loopback port.")
+              "reset time leaves exactly the state of a new limiter; a disabled limiter never limits until re-enabled. Server: for EVERY list "
+              "of accept events (connections with their requests, failed accept() calls, QUIC time-outs, shutdown requests, calls of other "
+              "tasks on the shared limiters) what every connection receives and how the loop ends equal the reference server: answers come "
+              "from the reference counter(s) alone until a shutdown request or the 101st consecutive accept error, everybody is refused "
+              "afterwards, and the loop ends in no other way - no address, request count, verdict or configuration occurs in that; a client whose "
+              "calls so far (its connection and requests included) are at most the smaller configured maximum is accepted and answered "
+              "normally every time, whatever anybody did before; the same "
+              "for collections of several hosts (one counter set per host, the pre-host limiter sharing the first host's) with requests for "
+              "unknown hosts (409, closed, no limiter asked). Concurrent calls (small-step model, one transition per access to shared memory, "
+              "any number of threads, EVERY interleaving, any clock readings): no call panics; a call of an address is never answered more "
+              "harshly than the ladder on that address's own calls returned so far, so an address whose calls are at most max is never limited "
+              "whatever others do concurrently; when every call is counted (check_every <= 1) and no reset occurs the k-th returned call of an "
+              "address gets exactly ladder(max, k) and the execution is linearisable to the sequential reference counter; a disabled limiter "
+              "touches nothing; on one thread the small-step model equals the sequential model. The models are tied to the repository on every "
+              "run by a differential run of the real LimitManager (single- and multi-threaded) and of real servers on loopback ports (accept "
+              "errors provoked on the real listener, shutdown, several hosts, concurrent clients).")
 LEVEL_NOTE = ("Trusted: Coq kernel, extraction (ExtrOcamlBasic) reduced by an in-kernel recheck sample, the hand transcription of "
-              "src/limiting.rs and of the accept loop / limiter branches of src/lib.rs as validated by the differential run (an independent "
-              "Python reference checks the same outputs without the model). Concurrent calls of register and f64 rounding of reset_seconds "
-              "are outside the model. No axioms.")
-TECHNIQUE = "Coq proof (refinement of the reference counter for all histories incl. configuration changes, exact characterisation of the accept loop's exit) + differential correspondence model vs. implementation (direct calls and a real loopback server) + model-independent oracles"
+              "src/limiting.rs and of the accept loop / host lookup / limiter branches of src/lib.rs as validated by the differential run (an "
+              "independent Python reference checks the same outputs without the model). Not proved: for check_every >= 2 or with resets "
+              "concurrent executions are not linearisable (witness ex_sampling_race) - only the per-address upper bound holds there; the "
+              "accept loop running concurrently with its connection tasks is serialised in the server theorems; weak-memory effects, f64 "
+              "rounding of reset_seconds, HTTP/3 and a wall clock stepping back on the real code are outside the "
+              "differential run. No axioms.")
+TECHNIQUE = "Coq proof (refinement of the reference counter for all histories incl. configuration changes, all accept-event lists and several hosts; invariants over every interleaving of a small-step concurrent model) + differential correspondence model vs. implementation (direct calls on 1-8 threads, real loopback servers with provoked accept errors) + model-independent oracles"
 KERNEL_SAMPLE = 30
